@@ -155,11 +155,17 @@ def make_rdms(rng, feats):
         desc['excluded'] = np.array([], dtype=int)     # a zero-length array is a value, not an absent one
     if 'none_measure' in feats:
         desc['session'] = None                         # a descriptor that is present and has no value
+    if 'tuple' in feats:
+        desc['coord'] = (1.5, -2.0, 30.0)              # a few numbers given as a tuple
+        desc['shape'] = (4, 3)
     rd = {'subj': gen.wrap([f's{i}' for i in range(n_rdm)], cont), 'age': gen.wrap([20 + i for i in range(n_rdm)], cont),
           'w': gen.wrap([0.5 * i for i in range(n_rdm)], cont)}
     pd = {'cond': gen.wrap(names, cont), 'cat': gen.wrap([i % 2 for i in range(n_cond)], cont),
           'flag': gen.wrap([bool(i % 2) for i in range(n_cond)], cont)}
     meas = None if 'none_measure' in feats else gen.pick(rng, ['euclidean', 'squared mahalanobis'])
+    if 'tuple' in feats:
+        rd['visit'] = tuple(3 * i + 1 for i in range(n_rdm))      # per-item values as a tuple
+        pd['slot'] = tuple(0.25 * i for i in range(n_cond))
     r = RDMs(v, dissimilarity_measure=meas, descriptors=desc, rdm_descriptors=rd, pattern_descriptors=pd)
     if 'empty' in feats and rng.integers(2):
         return r.subset('subj', 'nobody')      # an object emptied by a selection without match
@@ -210,6 +216,9 @@ def make_dataset(rng, feats, temporal=False):
         desc['excluded'] = np.array([], dtype=int)
     if 'none_measure' in feats:
         desc['session'] = None
+    if 'tuple' in feats:
+        desc['coord'] = (1.5, -2.0, 30.0)
+        desc['shape'] = (4, 3)
     if temporal:
         d = TemporalDataset(m, descriptors=desc, obs_descriptors=od, channel_descriptors=cd,
                             time_descriptors={'time': np.arange(n_t) * 0.1})
@@ -302,7 +311,7 @@ def compare_obj(kind, a, b, theta=None):
 
 def run_history(ctx, scratch, kind):
     rng = ctx.rng
-    feats = [f for f in ('nan', 'inf', 'unicode', 'matrix', 'none_measure', 'history', 'empty')
+    feats = [f for f in ('nan', 'inf', 'unicode', 'matrix', 'none_measure', 'history', 'empty', 'tuple')
              if rng.integers(3 if f == 'history' else 4) == 0]
     if kind == 'Result' and rng.integers(6) == 0:
         feats.append('many_models')
